@@ -53,6 +53,28 @@ Lemma composite_member_refuted :
   = Some (Err (1, 0, ENoIndex "ix_t__a_b"))%nat.
 Proof. vm_compute. reflexivity. Qed.
 
+(* D18, the sequel in the next migration: RemoveConstraint compares by equality, so the shrunk key [part] survives the
+   planner's RemoveConstraint PrimaryKey [id; part] in the replayed baseline and AddConstraint PrimaryKey appends a
+   second primary key; catalog_of counts the first, a foreign key to the intended key has no unique index to use *)
+Definition w_stale0 : schema :=
+  [mkTable "a" None [icol "id"] [pk_id];
+   mkTable "a_b" None [icol "id"; icol "part"; icol "author_id"] [CPrimaryKey false ["id"; "part"]]].
+Definition w_stale_plan : list action :=
+  [DeleteColumn "a_b" "id"; RemoveConstraint "a_b" (CPrimaryKey false ["id"; "part"]);
+   AddConstraint "a_b" (CPrimaryKey false ["author_id"])].
+Lemma stale_key_two_primary_keys :
+  map (fun t => filter is_pk (t_constraints t)) (after_of w_stale0 w_stale_plan)
+  = [[pk_id]; [CPrimaryKey false ["part"]; CPrimaryKey false ["author_id"]]]
+  /\ base_stale_key_tables (after_of w_stale0 w_stale_plan) = ["a_b"].
+Proof. vm_compute. split; reflexivity. Qed.
+Lemma stale_key_refuted :
+  run_plan (after_of w_stale0 w_stale_plan)
+    [AddColumn "a" (ncol "b_author_id" (TSimple Integer)) None;
+     AddConstraint "a" (CForeignKey None ["b_author_id"] "a_b" ["author_id"] None None)]
+  = Some (Err (1, 0, EFkNoUniqueTarget "a" "a_b"))%nat.
+Proof. vm_compute. reflexivity. Qed.
+
+
 (* DROP TABLE leaves the enum type behind *)
 Definition w_enum_t : schema := [mkTable "t" None [icol "id"; ncol "s" w_status] [pk_id]].
 Lemma enum_left_by_drop_table_refuted :
